@@ -399,6 +399,9 @@ pub fn run(ctx: &'static Ctx) -> (&'static str, Value, Vec<&'static str>) {
             let n = short_read_check(ctx, "decode_rda_status_message", &bytes, true, |r: &mut SplitReader| rda::decode_rda_status_message(r).ok(), |shape| json!({"op": "short_read", "plan": p, "boundaries": shape.0, "max_chunk": shape.1}));
             stats.evaluations += n;
             stats.count("short_read_shapes", n);
+            let n = crate::guard::two_actor_check(ctx, "decode_rda_status_message", &bytes, 32, |r: &mut SplitReader| rda::decode_rda_status_message(r).ok(), |mode, k| json!({"op": "short_read", "plan": p, "mode": mode, "read_call": k}));
+            stats.evaluations += n;
+            stats.count("two_actor_schedules", n);
         }
         // 120 messages back to back through one reader whose reads stop at multiples of 8192 - k
         let one = rda_body(&rda_in_domain());
